@@ -850,8 +850,9 @@ def run_conc(case, problems):
         """Signature of the llm_params race: `with llm_params` blocks of different tasks, at least one of them altering a
         parameter, were open at the same time before the observation."""
         before = [r for r in racing if at is None or r[0] <= at]
-        others_t = sorted({repr(c["exp"]["t_start"]) for c in calls if c["exp"] and c["task"] != i} | {repr(v) for v in configured_vals["t"]})
-        others_mt = sorted({repr(c["exp"]["mt_start"]) for c in calls if c["exp"] and c["task"] != i} | {repr(v) for v in configured_vals["mt"]})
+        # a stale restore can bring back any value some call of the case asked for (also an earlier one of the same task)
+        others_t = sorted({repr(c["exp"]["t_start"]) for c in calls if c["exp"]} | {repr(v) for v in configured_vals["t"]})
+        others_mt = sorted({repr(c["exp"]["mt_start"]) for c in calls if c["exp"]} | {repr(v) for v in configured_vals["mt"]})
         return {"leg": "conc", "overlap": bool(before), "n_racing_pairs": len(before), "other_values_t": others_t, "other_values_mt": others_mt}
 
     # differential
@@ -923,7 +924,7 @@ def known(case, violation):
              proper prefix of its messages, an entry stored for a different message list (or an entry descending from one).
     C15-F9b  LLMParams mutates the shared LLM object around an await and restores the value captured at entry: a parameter
              mismatch (at call start, at call end, or at rest) after calls of different tasks that asked for different
-             parameters overlapped in virtual time, the observed value being one another task asked for (or the configured one).
+             parameters overlapped in virtual time, the observed value being one that some call of the case asked for (or the configured one).
     C15-F9c  LLMParams.__exit__ writes the saved `None` back into model_kwargs for a parameter that was not configured:
              parameters at rest differ from the configured ones without any concurrency.
     """
